@@ -16,7 +16,7 @@ from .C12 import is_effect_on, WRITE_EFFECTS
 
 FILESET = "typhon/files/fileset.py"
 HCOMMON = "typhon/files/handlers/common.py"
-EXPECT = {"C11.bind": 4, "C11.delete": 3, "C11.move": 5, "C11.write": 7, "C11.pure": 2, "C11.handlers": 3, "C11.items": 2, "C11.ncread": 1}
+EXPECT = {"C11.args": 4, "C11.bind": 4, "C11.delete": 3, "C11.move": 6, "C11.write": 7, "C11.pure": 2, "C11.handlers": 3, "C11.items": 2, "C11.ncread": 1}
 
 
 def _method_ref(ctx, node):
@@ -194,6 +194,17 @@ def rule_move(ctx):
     if not top:
         raise AnalysisError("_move_single_file: `if convert:` not found")
     ct, pl = arms(top[0], conv, f.body)
+    # nothing leaves the worker before the convert/plain decision unless `convert` is known to be false there
+    from ..flow import facts_at as _facts_at
+    early = []
+    for st in flow.stmts:
+        if isinstance(st, (ast.Return, ast.Raise)) and flow._order(st) < flow._order(top[0]) and not any(st is x_ for s_ in (ct + pl) for x_ in ast.walk(s_)):
+            fa_ = _facts_at(st)
+            if not any(str(norm(e_)) == conv and not tr_ for e_, tr_ in fa_) and isinstance(st, ast.Return):
+                early.append("return under %s" % [("%s" if tr_ else "not %s") % norm(e_) for e_, tr_ in fa_])
+    ctx.ob("FileSet._move_single_file.convert.reached", not early, "exits before the convert decision: %s" % (early or "none"),
+           "none that can be taken with a truthy `convert`: a conversion is performed even onto the file's own name (a change of format in place)",
+           node=top[0], func=f)
     # "the new name is the file's own name" (a conversion in place, a target template generating the same names)
     same = None
     for st in flow.stmts:
@@ -528,3 +539,6 @@ def run(ctx):
     from . import C12, C16
     for r in (C12.rule_table, C12.rule_cleanup, C12.rule_commit, C12.rule_passthrough, C12.rule_zipname, C12.rule_writer, C16.rule_dispatch):
         ctx.attempt(r, ctx)
+    # the caller's arguments (arrays, filter / fill dictionaries) are not modified: an in-place update makes the next call on the same objects wrong
+    from ..purity import rule_pure as _rule_args
+    ctx.attempt(_rule_args, ctx, "C11.args", [('typhon/files/fileset.py', 'FileSet.read'), ('typhon/files/fileset.py', 'FileSet.write'), ('typhon/files/fileset.py', 'FileSet.move'), ('typhon/files/fileset.py', 'FileSet.delete')], "the caller's arguments are not modified in place")
